@@ -36,6 +36,7 @@ ASSUME_CODEC = ["the Go projector (harness/proj.go) maps library values to the s
 
 def run_c03(ctx, C):
     codec_common(ctx, C, [GEN_CODEC], [DRV_CODEC])
+    C.stage_s3(ctx)
 
 
 GEN_CURSOR = dict(module="Gen_Cursor", name="cursor", constants=dict(Window=lambda ctx: 12 if ctx.thorough else 2), trace=False, timeout=3000)
@@ -48,6 +49,7 @@ GEN_LIBERTY = dict(module="Gen_Liberty", name="liberty")
 
 def run_c05(ctx, C):
     codec_common(ctx, C, [GEN_CODEC, GEN_LIBERTY], [DRV_CODEC])
+    C.stage_s3(ctx)
 
 
 def run_c12(ctx, C):
@@ -55,7 +57,7 @@ def run_c12(ctx, C):
 
 
 def run_c13(ctx, C):
-    codec_common(ctx, C, [GEN_INSERT], [], traces=())
+    codec_common(ctx, C, [GEN_INSERT, GEN_SK], [], traces=())
 
 
 GEN_BUILDERS = dict(module="Gen_Builders", name="builders", constants=dict(MaxTop=lambda ctx: 2), trace=False,
@@ -177,12 +179,16 @@ MC_AKA_KNOB = dict(module="AkaSession", name="akasession_knob_MacOverWire", expe
                    invariants=("ReceiverAgrees", "Sensitive"), what="sanity: a receiver that re-serialises before computing the code rejects honest packets in another order")
 
 
+GEN_AKAHIST = dict(module="Gen_AkaHist", name="akahist", constants=dict(MaxOps=lambda ctx: 5 if ctx.thorough else 4), trace=False)
+
+
 def run_c14(ctx, C):
-    codec_common(ctx, C, [GEN_EAP], [DRV_EAP], traces=("Trace_Codec",))
+    codec_common(ctx, C, [GEN_EAP, GEN_AKAHIST], [DRV_EAP], traces=("Trace_Codec",))
+    C.stage_s3(ctx)
 
 
 def run_c15(ctx, C):
-    codec_common(ctx, C, [GEN_EAP], [], mcs=[MC_AKA, MC_AKA2, MC_AKA_KNOB], traces=())
+    codec_common(ctx, C, [GEN_EAP, GEN_AKAHIST], [], mcs=[MC_AKA, MC_AKA2, MC_AKA_KNOB], traces=())
 
 
 def run_c16(ctx, C):
@@ -208,7 +214,7 @@ def run_c06(ctx, C):
 
 
 def run_c04(ctx, C):
-    codec_common(ctx, C, [GEN_CURSOR], [DRV_BYTES])
+    codec_common(ctx, C, [GEN_CURSOR, GEN_SK, GEN_CIPHER], [DRV_BYTES], traces=("Trace_Codec",))
 
 
 PLANS = {
